@@ -286,7 +286,7 @@ pub fn replay(doc: &serde_json::Value) -> i32 {
 
 pub const ENGINE_IMAGES: u64 = 6;
 
-fn image_hash(spec: &crate::pma::Spec) -> String {
+pub fn image_hash(spec: &crate::pma::Spec) -> String {
     use std::hash::{Hash, Hasher};
     match crate::pma::build(spec) {
         Ok(p) => {
